@@ -57,7 +57,8 @@ class Run(object):
     """One complete LP-mode run of the repository on a case."""
 
     def __init__(self, inst, opts, mode='eb', choices=(), noise=None, time_limit=None,
-                 hook=None, text=None, salt=0):
+                 hook=None, text=None, salt=0, decoy=None):
+        self.decoy = decoy
         self.inst = inst
         self.opts = opts
         self.text = text if text is not None else refmodel.render(inst, noise)
@@ -69,6 +70,17 @@ class Run(object):
 
     def solve(self):
         self.solver = make_solver(self.argv)
+        if self.decoy:
+            # another Solver object created (and possibly solved) between the construction
+            # and the solve of the one under test: objects must not share state
+            dargv = strategies.build_argv(self.decoy['opts'], self.path, self.inst['na'])
+            try:
+                other = make_solver(dargv)
+                if self.decoy.get('solve'):
+                    with refbackend.Backend('eb' if self.backend.mode != 'cbc' else 'cbc'):
+                        other.solve(msg=False, timeLimit=None, threads=None, write=False)
+            except (Violation, Exception):
+                pass        # the decoy's own behaviour is not what this case checks
         with self.backend:
             call_repo('solve()', self.solver.solve, msg=False, timeLimit=self.time_limit,
                       threads=None, write=False)
@@ -92,6 +104,9 @@ def describe_case(case):
     if 'opts' in case:
         d['argv'] = strategies.build_argv(case['opts'], '<file>', case['inst']['na'],
                                           bf=case.get('bf', False))
+    if case.get('decoy'):
+        d['decoy_argv'] = strategies.build_argv(case['decoy']['opts'], '<file>', case['inst']['na'])
+        d['decoy_solved'] = bool(case['decoy'].get('solve'))
     for k in ('choices', 'salt', 'mode', 'plan', 'ops', 'time_limit', 'kind', 'matching'):
         if k in case:
             d[k] = case[k]
